@@ -282,7 +282,8 @@ impl Run {
         let _ = std::fs::create_dir_all(&dir);
         let n = inner.artefacts_written;
         inner.artefacts_written += 1;
-        let path = dir.join(format!("{}-{}-s{}-{}.json", self.prop, self.tier.as_str(), self.seed, n));
+        let variant = std::env::var("VERIF_VARIANT").ok().filter(|v| !v.is_empty()).map(|v| format!("-{v}")).unwrap_or_default();
+        let path = dir.join(format!("{}-{}{variant}-s{}-{}.json", self.prop, self.tier.as_str(), self.seed, n));
         let doc = json!({
             "property": self.prop,
             "signature": signature,
@@ -357,6 +358,7 @@ impl Run {
             "tier": self.tier.as_str(),
             "seed": self.seed as i64,
             "level": self.level,
+            "build_variant": std::env::var("VERIF_VARIANT").ok().filter(|v| !v.is_empty()).unwrap_or_else(|| "debug assertions and overflow checks on".into()),
             "coverage": Value::Object(coverage),
             "assumptions": inner.assumptions,
             "wall_s": (wall * 1000.).round() / 1000.,
@@ -365,7 +367,13 @@ impl Run {
         if self.replay.is_none() {
             let dir = self.verif_root.join("evidence");
             let _ = std::fs::create_dir_all(&dir);
-            let path = dir.join(format!("{}.json", self.prop));
+            // a second build variant of the same check (VERIF_VARIANT=nodebug: no debug assertions, as shipped binaries are
+            // built) writes next to the main evidence file
+            let variant = std::env::var("VERIF_VARIANT").ok().filter(|v| !v.is_empty());
+            let path = dir.join(match &variant {
+                Some(v) => format!("{}.{v}.json", self.prop),
+                None => format!("{}.json", self.prop),
+            });
             if let Err(err) = std::fs::write(&path, serde_json::to_string_pretty(&doc).unwrap()) {
                 println!("INCONCLUSIVE property={} cannot write evidence: {err}", self.prop);
                 std::process::exit(2);
